@@ -24,13 +24,15 @@ TITLE = 'perdictable evaluates a function once per row of the keyed join of its 
 STATEMENT = ('perdictable(f, on=keys) returns f(...) itself for scalar inputs; with table inputs one row per key present in every table input '
              '(scalars broadcast), sorted by key, valued f(that key\'s values); inputs named in defaults are outer-joined with their default; '
              'rows with a supplied previous value and an expiry in the past keep it without a call of f, all other rows are computed exactly once')
-LEAN_FILES = ['Basic', 'Cmp', 'Sort', 'TableBasic', 'Join', 'PerDict', 'PerDictDriver', 'Tri', 'CmpLemmas', 'JoinLemmas', 'PerDictLemmas', 'UnlistLemmas', 'PivotLemmas', 'GroupLemmas', 'C02', 'C20']
+LEAN_FILES = ['Basic', 'Cmp', 'Sort', 'TableBasic', 'Join', 'PerDict', 'PerDictDriver', 'Tri', 'CmpLemmas', 'JoinLemmas', 'PerDictLemmas', 'UnlistLemmas', 'PivotLemmas', 'GroupLemmas', 'C02', 'C07', 'C20',
+              'KeyedRows', 'PerDictSem', 'PerDictStep', 'PerDictFold', 'PerDictTables', 'PerDictItem', 'PerDictJoin', 'PerDictTotal', 'PerDictRename',
+              'PygModel/Table.lean', 'TableLemmas', 'TableRect', 'TableRows']
 RULE = 'distinct protocol lines (one lifted call) with at least one table input on which the implementation returned'
 TRUSTED = ['correspondence harness (pv.engine, pv.proto) and generators / reference evaluation of pv.props.c20',
            'Lean driver parser/printer (PygModel/Basic.lean, PerDictDriver.lean)']
 ASSUMPTIONS = ['"today" is injected by rebinding pyg_base._perdictable.dt during the call (the code reads the clock through dt(0))',
                'the lifted function is pure apart from the call log; python keyword binding of the row to f is assumed (kwargs_support, C18)',
-               'renames=None, if_none=False, output_is_input=True, include_inputs=False, a function without .output; keys unique per table (the code only warns otherwise)',
+               'renames None or a dict parameter -> column, if_none False or True, output_is_input=True, include_inputs=False, a function without .output; keys unique per table (the code only warns otherwise)',
                'row order among rows with equal `on` keys (only possible when a table lacks an `on` column) depends on a python set order in dict_concat and is not compared']
 CALL_TIMEOUT = 8
 D = datetime.datetime
@@ -132,6 +134,28 @@ def gen_case(rng, full=False):
             kinds.append('t')
     defaults = [(p, rng.choice([0, None, 'D', -1])) for p in params if rng.random() < 0.35]
     has_table = 't' in kinds
+    # renames (a dict parameter -> column): a second value column that only a rename can select, a rename onto the
+    # existing value column / a key column / (not in the laws) a missing column; a rename for a scalar is ignored
+    renames = []
+    if has_table and rng.random() < 0.15:
+        for i, p in enumerate(params):
+            if rng.random() < 0.6:
+                if kinds[i] == 's':
+                    if rng.random() < 0.3:
+                        renames.append((p, 'alt'))
+                    continue
+                t = inputs[i][1]
+                r = rng.random()
+                vcol = [c for c, _ in t if c not in on][0]
+                if r < 0.6:
+                    t.insert(rng.randrange(len(t) + 1), ('alt', [rng.choice(VALS) for _ in t[0][1]]))
+                    renames.append((p, rng.choice(['alt', 'alt', vcol])))
+                elif r < 0.8:
+                    renames.append((p, vcol))
+                elif r < 0.93 or full:
+                    renames.append((p, rng.choice([c for c, _ in t if c in on])))
+                else:
+                    renames.append((p, 'missing'))
     expiry = None
     tag = 'scalars' if not has_table else 'tables%d' % kinds.count('t')
     if has_table and rng.random() < 0.5:
@@ -146,8 +170,15 @@ def gen_case(rng, full=False):
         tag += '+expiry-scalar'
     if defaults:
         tag += '+defaults'
-    line = '(pd call (L%s) (L%s) (D%s) (D%s) %s T:%d)' % (
+    if renames:
+        tag += '+renames'
+    if_none = has_table and rng.random() < 0.15
+    if if_none:
+        tag += '+if_none'
+    line = '(pd %s (L%s) (L%s)%s (D%s) (D%s) %s T:%d)' % (
+        'callr' if (renames or if_none) else 'call',
         ''.join(' S:' + hexs(p) for p in params), ''.join(' S:' + hexs(c) for c in on),
+        (' (D%s) %s' % (''.join(' (%s %s)' % (hexs(k), cell(v)) for k, v in renames), cell(bool(if_none)))) if (renames or if_none) else '',
         ''.join(' (%s %s)' % (hexs(k), cell(v)) for k, v in defaults),
         ''.join(' (%s %s)' % (hexs(k), enc_input(v)) for k, v in inputs),
         enc_input(expiry), proto.dt2us(TODAY))
@@ -175,15 +206,24 @@ def dec_input(sx):
     return proto.dec(sx)
 
 
+def get_renames(sx):
+    return ({unhex(kv[0]): proto.dec(kv[1]) for kv in sx[4][1:]} or None) if sx[1] == 'callr' else None
+
+
 def call_impl(sx):
     params = [proto.dec_cell(a) for a in sx[2][1:]]
     on = [proto.dec_cell(a) for a in sx[3][1:]]
+    renames = get_renames(sx)
+    if_none = False
+    if sx[1] == 'callr':
+        if_none = proto.dec(sx[5])
+        sx = sx[:4] + sx[6:]
     defaults = {unhex(kv[0]): proto.dec(kv[1]) for kv in sx[4][1:]}
     inputs = {unhex(kv[0]): dec_input(kv[1]) for kv in sx[5][1:]}
     expiry = dec_input(sx[6])
     today = proto.dec_cell(sx[7])
     log = []
-    p = pyg_base.perdictable(make_f(params, log), on=on, defaults=defaults)
+    p = pyg_base.perdictable(make_f(params, log), on=on, defaults=defaults, renames=renames, if_none=if_none)
     old = _pd.dt
     _pd.dt = lambda *a, **k: today
     try:
@@ -204,7 +244,7 @@ def enc_result(res, inputs):
 
 
 def run_line(state, sx):
-    if sx[1] != 'call':
+    if sx[1] not in ('call', 'callr'):
         return 'bad-op'
     res, log, inputs = call_impl(sx)[:3]
     return 'ok (T %s %s)' % (enc_result(res, inputs), enc([tuple(a) for a in log]))
@@ -250,17 +290,22 @@ def compare(case, i, line, ir, mr):
 
 
 def nontrivial(line, reply):
-    return reply.startswith('ok') and '(D (' in line.split(') (D', 2)[-1]
+    if not reply.startswith('ok'):
+        return False
+    sx = proto.parse(line)
+    k = 7 if sx[1] == 'callr' else 5
+    is_table = lambda v: isinstance(v, list) and len(v) > 0 and v[0] == 'D'   # noqa: E731
+    return any(is_table(kv[1]) for kv in sx[k][1:]) or is_table(sx[k + 1])
 
 
 # ------------------------------------------------------------------ laws: the statement on the implementation alone
 
-def lookup(tbl, on, k):
-    """value of the non-key column of a keyed table at key k (None, False) if absent"""
+def lookup(tbl, on, k, col=None):
+    """value of the non-key column (of column `col` when renamed) of a keyed table at key k; (None, False) if absent"""
     cols = [c for c in tbl.keys() if c not in on]
     for i in range(len(tbl)):
         if all(keq(tbl[c][i], k[j]) for j, c in enumerate(on)):
-            return tbl[cols[0]][i], True
+            return tbl[col if col is not None else cols[0]][i], True
     return None, False
 
 
@@ -277,6 +322,8 @@ def laws(rng, tier, ctx):
         sx = proto.parse(line)
         count += 1
         try:
+            renames = get_renames(sx) or {}
+            if_none = sx[1] == 'callr' and proto.dec(sx[5])
             res, log, inputs, on, params, defaults, expiry, today = call_impl(sx)
         except Timeout:
             yield Finding('violation', case, 'the call did not return')
@@ -307,13 +354,13 @@ def laws(rng, tier, ctx):
             vals = []
             for p in params:
                 if p in ftabs:
-                    v, ok = lookup(ftabs[p], on, k)
+                    v, ok = lookup(ftabs[p], on, k, renames.get(p))
                     vals.append(v if ok else defaults[p])
                 else:
                     vals.append(inputs[p])
             old = lookup(inputs['data'], on, k)[0] if 'data' in inputs else None
             ex = lookup(expiry, on, k)[0] if isinstance(expiry, dictable) else expiry
-            keep = 'data' in inputs and ex is not None and ex < today
+            keep = 'data' in inputs and ex is not None and ex < today and not (if_none and old is None)
             rows[k] = (tuple(vals), keep, old)
         if not K:
             if not (res is None or ('data' in inputs and res is inputs['data'])):
